@@ -33,6 +33,7 @@ type Sched struct {
 	wg       sync.WaitGroup
 	activity int64
 	budget   int  // remaining voluntary context switches
+	taken    []string // the context switches this path forced, in order
 	explore  bool // forced switches choose among runnable goroutines by decision
 	reverse  bool // deterministic policy: pick the runnable goroutine with the next LOWER id
 }
@@ -221,6 +222,8 @@ func (s *Sched) preempt(in *Interp) {
 	}
 	s.budget--
 	next := others[c-1]
+	w, _ := in.whereNow()
+	s.taken = append(s.taken, fmt.Sprintf("%s is preempted at %s, %s runs", g.name, w, next.name))
 	s.cur = next
 	next.resume <- struct{}{}
 	<-g.resume
